@@ -5,7 +5,8 @@ open LokiModel.C42 Sexp
 /-!
 Line protocol for C42.
 
-`(lint (files (f ID KIND (FLAG…))…) (nh N) (w N) (orders (ID…)…) …)`: `KIND` is `ok` or `bad`
+`(lint (files (f ID KIND (FLAG…))…) (nh N) (w N) (orders (ID…)…) …)` (one call on a fresh reporter) or
+`(session (nh N) (call (files …) (w N) (orders …) …) …)` (several calls on ONE linter/reporter, then output): `KIND` is `ok` or `bad`
 (unparsable), `FLAG…` one 0/1 per routine (1 = the harness rule reports it); `orders` = for every handler
 the observed order of its list (file ids).  Answer: whether the observed orders are a run of the model
 (`acceptEvents` + `replay`), the final `checked_count`, the per-file reports of the final state sorted by
@@ -36,27 +37,61 @@ def repSexp (r : Rep) : Sexp :=
 
 def sortReps (l : List Rep) : List Rep := l.mergeSort (fun a b => a.1 ≤ b.1)
 
+structure CallReq where
+  reps : List Rep
+  w : Nat
+  orders : List (List Nat)
+
+def parseCall : List Sexp → Option CallReq
+  | list (atom "files" :: fsx) :: list [atom "w", wx] :: list (atom "orders" :: ordx) :: _ => do
+      let reps ← fsx.mapM parseFile
+      let w ← wx.toNat?
+      let orders ← parseOrders ordx
+      pure ⟨reps, w, orders⟩
+  | _ => none
+
+/-- events of a whole session: per call `call files w` followed by the schedule `acceptEvents` finds for the
+observed per-handler orders of that call -/
+def sessionEvents (nh : Nat) : List CallReq → Option (List Ev)
+  | [] => some []
+  | cr :: rest => do
+      let fs := cr.reps.map (·.1)
+      let w := max cr.w 1
+      let es ← acceptEvents fs nh w cr.orders
+      let more ← sessionEvents nh rest
+      pure (Ev.call fs w :: es ++ more)
+
+def answer (nh : Nat) (calls : List CallReq) : Sexp :=
+  let reps := calls.flatMap (·.reps)
+  let c : Cfg Rep Rep :=
+    { lint := fun f => (reps.find? (fun r => r.1 == f)).getD (f, false, []),
+      ok := fun r => r.2.1, nh := nh, handle := fun _ r => r }
+  let all := reps.map (·.1)
+  let serial := sortReps (serialOut c all 0)
+  let fin : Option (State Rep) := (sessionEvents nh calls).bind (replay c init)
+  -- the observed order of handler k over the session is the concatenation of the per-call orders
+  let obs (k : Nat) : List Nat := calls.flatMap (fun cr => (cr.orders[k]?).getD [])
+  let okRun : Bool := match fin with
+    | some s => isFinal s && (List.range nh).all (fun k => obs k == s.apps k) && calls.all (fun cr => cr.orders.length == nh)
+    | none => false
+  let (cnt, reports, same) := match fin with
+    | some s => (s.count, sortReps (s.outs 0), (List.range nh).all (fun k => sortReps (s.outs k) == serial))
+    | none => (all.countP (fun f => c.ok (c.lint f)), serial, true)
+  list [atom "ok", list [atom "accepted", ofBool okRun], list [atom "count", ofNat cnt],
+    list (atom "reports" :: reports.map repSexp), list [atom "same-multiset", ofBool same]]
+
 def step' : Sexp → Option Sexp
   | list (atom "lint" :: list (atom "files" :: fsx) :: list [atom "nh", nhx] :: list [atom "w", wx]
       :: list (atom "orders" :: ordx) :: _) => do
-      let reps ← fsx.mapM parseFile
       let nh ← nhx.toNat?
-      let w ← wx.toNat?
-      let orders ← parseOrders ordx
-      let c : Cfg Rep Rep :=
-        { files := reps.map (·.1),
-          lint := fun f => (reps.find? (fun r => r.1 == f)).getD (f, false, []),
-          ok := fun r => r.2.1, nh := nh, handle := fun _ r => r, w := max w 1 }
-      let serial := sortReps (serialOut c 0)
-      let fin : Option (State Rep) := (acceptEvents c.files nh c.w orders).bind (replay c (init c))
-      let okRun : Bool := match fin with
-        | some s => isFinal s && (List.range nh).all (fun k => orders[k]? == some (s.apps k)) && orders.length == nh
-        | none => false
-      let (cnt, reports, same) := match fin with
-        | some s => (s.count, sortReps (s.outs 0), (List.range nh).all (fun k => sortReps (s.outs k) == serial))
-        | none => (c.files.countP (fun f => c.ok (c.lint f)), serial, true)
-      pure (list [atom "ok", list [atom "accepted", ofBool okRun], list [atom "count", ofNat cnt],
-        list (atom "reports" :: reports.map repSexp), list [atom "same-multiset", ofBool same]])
+      let cr ← parseCall [list (atom "files" :: fsx), list [atom "w", wx], list (atom "orders" :: ordx)]
+      pure (answer nh [cr])
+  | list (atom "session" :: list [atom "nh", nhx] :: callsx) => do
+      let nh ← nhx.toNat?
+      let calls ← callsx.mapM fun x => match x with
+        | list (atom "call" :: rest) => parseCall rest
+        | _ => none
+      pure (answer nh calls)
   | _ => none
 
 def main : IO Unit := driverMain step'
